@@ -38,7 +38,7 @@ ASSUMPTIONS = ["zone database at /usr/share/zoneinfo; a missing zone is skipped 
 
 def plan(tier):
     if tier == "thorough":
-        return {"shards": 16, "cases": 400, "shard_timeout_s": 3000}
+        return {"shards": 16, "cases": 1600, "shard_timeout_s": 3000}
     return {"shards": 16, "cases": 32, "shard_timeout_s": 600}
 
 
